@@ -46,7 +46,20 @@ CHECKS['C08'] = {
     'technique': 'bounded exhaustive exploration (configuration x program space), algebraic and reference-model oracles',
 }
 
+CHECKS['C09'] = {
+    'text': 'For every registered functional, derived functional (depth <= 2), sum, product, quotient, '
+            'separable sum, composition with 7 linear and nonlinear operators, Moreau envelope and '
+            'quadratic form: library values against the reference interpreter on all of V^n; on all '
+            'admissible base points and ALL basis directions the (twice Richardson-extrapolated) '
+            'central difference of the values against <grad f(x), e_k>_W and f.derivative(x)(e_k); '
+            'finite grad_lipschitz checked as an upper bound on all pairs of base points.',
+    'note': 'small scope V^n (n <= 3 full alphabet); differentiability domain from the registry with '
+            'margin h; only a fixed h-grid is decided (tolerance 2e-7 relative), C^{1,1} envelopes '
+            'with the O(h) bound implied by their Lipschitz constant',
+    'technique': 'bounded exhaustive exploration (configuration x program space) against a reference interpreter',
+}
+
 _PENDING = 'check under construction in this session; not claimed until it runs quietly on the unchanged tree'
 NOT_APPLICABLE = dict((p, _PENDING) for p in
-                      ['C01', 'C02', 'C03', 'C04', 'C05', 'C06', 'C09', 'C11', 'C12',
+                      ['C01', 'C02', 'C03', 'C04', 'C05', 'C06', 'C11', 'C12',
                        'C13', 'C14', 'C15', 'C16', 'C17', 'C18', 'C19', 'C20'])
